@@ -3,12 +3,20 @@ mod corpus;
 mod engine;
 mod findings;
 mod fmtx;
+mod gen;
+mod mutate;
 mod nf;
+mod pools;
+mod props;
 mod report;
+mod special;
+mod streams;
 mod tree;
 mod treeprops;
 mod util;
+mod workload;
 
+#[allow(unused_imports)]
 use engine::{par_cases, Case};
 use fmtx::Cfg;
 use treeprops::{TreeCheck, Verdict};
@@ -25,43 +33,61 @@ fn pool_by_name(name: &str) -> Vec<Case> {
 }
 
 fn explore(args: &[String]) {
+    use workload::*;
     let prop = args[0].as_str();
-    let cases = pool_by_name(&args[1]);
-    let widths: Vec<usize> = match args.get(2).map(|s| s.as_str()) {
-        Some("all") => (0..=130).chain([400, fmtx::W_INF]).collect(),
-        _ => vec![0, 1, 2, 10, 20, 40, 60, 80, 100, 120, fmtx::W_INF],
+    let pool_name = args[1].as_str();
+    let tier = Tier::parse(args.get(2).map(|s| s.as_str()).unwrap_or("quick"));
+    let want: usize = args.get(3).map(|s| s.parse().unwrap()).unwrap_or(2000);
+    let std = Std::load();
+    let pool: Box<dyn pools::Pool> = match pool_name {
+        "base" => Box::new(std.base_list()),
+        "comment" => Box::new(pools::comment_pool(std.small_bases.clone())),
+        "comment_snip" => Box::new(pools::comment_pool(std.snippet_bases.clone())),
+        "ws" => Box::new(pools::ws_pool(std.small_bases.clone())),
+        "eol" => Box::new(pools::eol_pool(std.small_bases.clone())),
+        "eolblank" => Box::new(pools::eolblank_pool(std.small_bases.clone())),
+        "paren" => Box::new(pools::paren_pool(std.small_bases.clone())),
+        "splice" => Box::new(pools::splice_pool(std.small_bases.clone(), std.frags.clone())),
+        "uni" => Box::new(pools::uni_pool(std.small_bases.clone())),
+        _ => panic!("unknown pool"),
     };
-    let tabs: Vec<usize> = match args.get(3).map(|s| s.as_str()) {
-        Some("alltabs") => (1..=8).collect(),
-        _ => vec![2, 4, 1],
-    };
-    let mut cfgs = vec![];
-    for &t in &tabs {
-        for &w in &widths {
-            cfgs.push(Cfg::new(w, t, false));
-        }
-    }
+    println!("pool {} size {}", pool.name(), pool.len());
     let oracle: &treeprops::Oracle = match prop {
         "C01" => &treeprops::oracle_c01,
         "C03" => &treeprops::oracle_c03,
         "C04" => &treeprops::oracle_c04,
         "C11" => &treeprops::oracle_c11,
+        "C06" => &treeprops::oracle_c06,
+        "C08" => &treeprops::oracle_c08,
+        "C09" => &treeprops::oracle_c09,
+        "C10" => &treeprops::oracle_c10,
         _ => panic!("unknown prop"),
     };
     let chk = TreeCheck { property: prop, per_output: prop != "C03", oracle };
-    let acc = par_cases(&cases, |c, acc| treeprops::run_case(&chk, c, &cfgs, acc));
+    let parts = vec![Part { pool, quick: want, thorough: want, cfg: CfgRule::Sweep { tabs: vec![2, 4], reorder: vec![false] } }];
+    let (acc, meta) = run_tree_workload(&chk, &parts, tier, util::seed_from_env());
+    println!("{}", serde_json::to_string(&meta).unwrap());
     println!(
         "evaluations={} held={} violations={} inconclusive={:?} nontrivial={}",
-        acc.evaluations,
-        acc.held,
-        acc.violations.len(),
-        acc.inconclusive,
-        acc.nontrivial.len()
+        acc.evaluations, acc.held, acc.violations.len(), acc.inconclusive, acc.nontrivial.len()
     );
     let mut seen = std::collections::HashSet::new();
+    let mut shown = 0;
     for v in &acc.violations {
-        if seen.insert((v.origin.clone(), v.detail.clone())) {
-            println!("--- {} [{}] {}\n    {}", v.origin, v.cfg.unwrap(), util::clip(&v.input.replace('\n', "⏎"), 120), util::clip(&v.detail, 400));
+        if seen.insert(v.input.clone()) {
+            shown += 1;
+            if shown > 60 { continue; }
+            println!("--- {} [{}] {}\n    {}", v.origin, v.cfg.unwrap(), util::clip(&v.input.replace('\n', "⏎"), 160), util::clip(&v.detail, 300));
+        }
+    }
+    println!("distinct violating inputs: {}", seen.len());
+    if let Ok(dir) = std::env::var("DUMP_DIR") {
+        let _ = std::fs::create_dir_all(&dir);
+        let mut seen2 = std::collections::HashSet::new();
+        for v in &acc.violations {
+            if seen2.insert(v.input.clone()) {
+                let _ = std::fs::write(format!("{}/{}.json", dir, v.key()), serde_json::to_string_pretty(&v.to_json()).unwrap());
+            }
         }
     }
     let _ = Verdict::Inconclusive("x");
@@ -91,6 +117,41 @@ fn main() {
             }
         }
         Some("explore") => explore(&args[2..]),
+        Some("check") => {
+            let code = props::check(&args[2], workload::Tier::parse(&args[3]));
+            std::process::exit(code);
+        }
+        Some("replay") => std::process::exit(props::replay(&args[2])),
+        Some("triage") => props::triage(&args[2], workload::Tier::parse(args.get(3).map(|s| s.as_str()).unwrap_or("thorough"))),
+        Some("gen") => {
+            let n: u64 = args.get(3).map(|s| s.parse().unwrap()).unwrap_or(5);
+            for p in gen::all_gen_pools() {
+                if p.name() == args[2] {
+                    for i in 0..n as usize {
+                        println!("---- {}#{}\n{}", p.name(), i, p.get(i).map(|c| c.text).unwrap_or_else(|| "<rejected>".into()));
+                    }
+                }
+            }
+        }
+        Some("show") => {
+            let v: serde_json::Value = serde_json::from_str(&std::fs::read_to_string(&args[2]).unwrap()).unwrap();
+            let input = v["input"].as_str().unwrap();
+            let cfg = Cfg::from_json(&v["cfg"]);
+            println!("== property {} oracle {} cfg [{}] origin {}", v["property"], v["oracle"], cfg, v["origin"]);
+            println!("== detail: {}", v["detail"].as_str().unwrap_or(""));
+            println!("== input:\n{}\n== output:", input);
+            match fmtx::fmt(input, cfg) {
+                fmtx::FmtOut::Ok(y) => {
+                    println!("{}", y);
+                    if let fmtx::FmtOut::Ok(y2) = fmtx::fmt(&y, cfg) {
+                        if y2 != y {
+                            println!("== second pass:\n{}", y2);
+                        }
+                    }
+                }
+                o => println!("{:?}", o),
+            }
+        }
         _ => eprintln!("usage"),
     }
 }
